@@ -53,6 +53,23 @@ def refusal_script(c):
     return {"cfg": c, "tree": TREE, "ops": ops}
 
 
+def positive_script(c):
+    """every entry-returning operation succeeding once, forgets (single, batched, over-counted), rename / unlink / hard link of
+    referenced files, readdirplus delivering entries: the operation gates of C08 do not depend on the seed"""
+    # handle ids: 1 = the handle create returns, 2 = opendir
+    hd = 0 if c["no_opendir"] else (1 if c["no_open"] else 2)
+    ops = [{"op": "lookup", "p": 1, "name": "a"}, {"op": "lookup", "p": 1, "name": "b"}, {"op": "forget", "p": 2, "n": 1},
+           {"op": "lookup", "p": 1, "name": "a"}, {"op": "lookup", "p": 1, "name": "a"}, {"op": "forget", "p": 2, "n": 100},
+           {"op": "mkdir", "p": 1, "name": "nd"}, {"op": "mknod", "p": 4, "name": "nn"}, {"op": "symlink", "p": 4, "name": "ns"},
+           {"op": "create", "p": 4, "name": "nc", "flags": O_RDWR}, {"op": "link", "p2": 3, "p": 4, "name": "hl"},
+           {"op": "rename", "p": 1, "name": "b", "p2": 4, "name2": "b2"}, {"op": "unlink", "p": 4, "name": "hl"}, {"op": "unlink", "p": 4, "name": "b2"},
+           {"op": "batch_forget", "items": [[3, 1], [5, 2]]}, {"op": "opendir", "p": 1},
+           {"op": "readdir", "p": 1, "h": hd, "size": 4096, "plus": True}, {"op": "readdir", "p": 1, "h": hd, "size": 200, "plus": True},
+           {"op": "readdir", "p": 1, "h": hd, "size": 4096, "plus": False}, {"op": "rename", "p": 1, "name": "nd", "p2": 1, "name2": "nd2"},
+           {"op": "lookup", "p": 4, "name": "nn"}, {"op": "rmdir", "p": 1, "name": "d1"}, {"op": "quiesce"}]
+    return {"cfg": c, "tree": TREE, "ops": ops}
+
+
 def reuse_script(c, n=4):
     """a referenced file loses its last name and new files are made right away (ext4 hands the freed host inode number to
     the next file): the new files must get numbers of their own (or, with use_host_ino, inherit the vanished file's)"""
@@ -234,7 +251,8 @@ def c08_scens(ctx):
             scens.append({"cfg": c, "tree": TREE, "random": {"kind": "refs", "seed": ctx.seed * 1000 + k * 8 + i, "steps": steps}})
         scens.append(refusal_script(c))
         scens.append(reuse_script(c))
-    return scens
+    # scripted scenarios first: the binding demonstration and the operation gates work on seed-independent events
+    return [positive_script(c) for c in cfgs] + scens
 
 
 def run_c08(ctx):
@@ -246,7 +264,7 @@ def run_c08(ctx):
         scens.append({"cfg": cfg(fh=b["fh"], hostino=b["hostino"], no_opendir=b["no_opendir"], seal=b["seal"]), "tree": [["a", "p" if b["special"] else "f"]],
                       "ops": b["ops"] + [{"op": "quiesce"}]})
     n_exp = len(scens)
-    scens += c08_scens(ctx)
+    scens = c08_scens(ctx) + scens
     rows, viols, out = run_trace(ctx, scens, "c08")
     seen = report(ctx, "C08", rows, viols, scens)
 
@@ -321,10 +339,14 @@ def inj_scripts(c, nmax):
         {"op": "readdir", "p": 1, "h": 99, "size": 200, "plus": True},
         {"op": "getattr", "p": 2}, {"op": "unlink", "p": 1, "name": "b"}, {"op": "rename", "p": 1, "name": "a", "p2": 3, "name2": "a2"},
         {"op": "destroy"}, {"op": "init"},
+        # RELEASE with every flag combination (1 = FLUSH, 2 = FLOCK_UNLOCK) and RELEASEDIR: a release always ends the handle
+        {"op": "release", "p": 2, "h": hf, "flags": 0}, {"op": "release", "p": 2, "h": hf, "flags": 1},
+        {"op": "release", "p": 2, "h": hf, "flags": 2}, {"op": "release", "p": 2, "h": hf, "flags": 3},
+        {"op": "releasedir", "p": 3, "h": hd},
     ]
     out = []
     for t in targets:
-        for n in range(nmax):
+        for n in range(min(nmax, 2) if t["op"].startswith("release") else nmax):
             pre = list(setup)
             if t["op"] == "init":
                 pre = pre + [{"op": "destroy"}]
@@ -344,6 +366,32 @@ def refused_write_script(c):
            {"op": "write", "p": 2, "h": hid, "off": "5000"}, {"op": "lookup", "p": 1, "name": "d0"}, {"op": "opendir", "p": 4},
            {"op": "getattr_h", "p": 2, "h": hid}, {"op": "release", "p": 2, "h": hid},
            {"op": "getattr_h", "p": 3, "h": 0 if c["no_open"] else 2}, {"op": "read", "p": 3, "h": 0 if c["no_open"] else 2, "size": 8},
+           {"op": "quiesce"}]
+    return {"cfg": c, "tree": TREE, "ops": ops}
+
+
+def dir_open_script(c):
+    """a DIRECTORY opened with OPEN (read-only), listed through that handle (the last read is not empty: a directory
+    position is recorded for it) and released with RELEASE; OPENDIR handles released with RELEASEDIR; the census at
+    quiescence must be back at the baseline (no directory-position record left)"""
+    if c["no_open"]:
+        return {"cfg": c, "tree": TREE, "ops": [{"op": "lookup", "p": 1, "name": "d0"}, {"op": "open", "p": 2, "flags": 0}, {"op": "quiesce"}]}
+    ops = [{"op": "lookup", "p": 1, "name": "d0"}, {"op": "open", "p": 2, "flags": 0},
+           {"op": "readdir", "p": 2, "h": 1, "size": 4096, "plus": False}, {"op": "readdir", "p": 2, "h": 1, "size": 64, "plus": False},
+           {"op": "getattr_h", "p": 2, "h": 1}, {"op": "release", "p": 2, "h": 1, "flags": 0},
+           {"op": "open", "p": 1, "flags": 0}, {"op": "readdir", "p": 1, "h": 2, "size": 4096, "plus": True}, {"op": "release", "p": 1, "h": 2, "flags": 1},
+           {"op": "opendir", "p": 2}, {"op": "readdir", "p": 2, "h": 3, "size": 4096, "plus": False}, {"op": "releasedir", "p": 2, "h": 3},
+           {"op": "quiesce"}]
+    return {"cfg": c, "tree": TREE, "ops": ops}
+
+
+def misuse_script(c):
+    """handles used with another inode, after their release, and handles never issued: all refused"""
+    hf = 0 if c["no_open"] else 1
+    ops = [{"op": "lookup", "p": 1, "name": "a"}, {"op": "lookup", "p": 1, "name": "b"}, {"op": "open", "p": 2, "flags": O_RDWR},
+           {"op": "read", "p": 3, "h": hf, "size": 8}, {"op": "release", "p": 3, "h": hf}, {"op": "read", "p": 2, "h": 9, "size": 8},
+           {"op": "read", "p": 2, "h": hf, "size": 8}, {"op": "release", "p": 2, "h": hf, "flags": 3}, {"op": "release", "p": 2, "h": hf},
+           {"op": "read", "p": 2, "h": hf, "size": 8}, {"op": "write", "p": 2, "h": hf, "off": "0"}, {"op": "releasedir", "p": 2, "h": hf},
            {"op": "quiesce"}]
     return {"cfg": c, "tree": TREE, "ops": ops}
 
@@ -379,6 +427,7 @@ def c15_scens(ctx):
         scens += inj
         scens.append(refused_write_script(c))
         scens.append(reinit_script(c))
+        scens.append(dir_open_script(c))
     return scens, hist, n_inj, cfgs
 
 
@@ -392,7 +441,8 @@ def run_c15(ctx):
                       "ops": b["ops"] + [{"op": "quiesce"}]})
     n_exp = len(scens)
     more, hist, n_inj, cfgs = c15_scens(ctx)
-    scens += more
+    # scripted scenarios first: the binding demonstration and the gates work on seed-independent events
+    scens = [misuse_script(c) for c in cfgs] + scens + more
     rows, viols, out = run_trace(ctx, scens, "c15")
     report(ctx, "C15", rows, viols, scens)
 
